@@ -64,7 +64,7 @@ func genC14(r *Rng, seed uint64, mode string) *C14Spec {
 	sharedPreset := pick(r, presetNames[1:])
 	for i := 0; i < ns; i++ {
 		if r.Chance(0.5) {
-			cc := genCharCfg(r, charOpt{small: r.Chance(0.6), budget: 3000, maxLen: 8, maxReq: 3, noEmptied: true})
+			cc := genCharCfg(r, charOpt{small: r.Chance(0.6), budget: 3000, maxLen: 8, maxReq: 3, noEmptied: r.Chance(0.7)})
 			s.Shared = append(s.Shared, PoolEntry{Char: &cc, Ptr: r.Bool()})
 		} else {
 			w := genWLCfg(r, wlOpt{list: listOpt{min: 2, max: 7, twins: 0.2, precap: 0.1, caseless: 0.1}, maxLen: 4})
@@ -72,7 +72,7 @@ func genC14(r *Rng, seed uint64, mode string) *C14Spec {
 			case 0: // several recipes sharing one preset, as every real program does
 				w.Sep = SepCfg{Kind: "preset", Preset: sharedPreset}
 			case 1:
-				cc := genCharCfg(r, charOpt{small: true, budget: 30, maxLen: 2, maxReq: 1, noEmptied: true})
+				cc := genCharCfg(r, charOpt{small: true, budget: 30, maxLen: 2, maxReq: 1, noEmptied: r.Chance(0.7)})
 				if r.Chance(0.25) {
 					cc.Length = 0 // a constructed separator whose recipe cannot generate: yields "" every time
 				}
